@@ -26,5 +26,6 @@ func TestWorker(t *testing.T) {
 		"C39": checkC39,
 		"C41": checkC41,
 		"C18": checkC18,
+		"C23": checkC23,
 	})
 }
